@@ -1,13 +1,11 @@
 (* C01/C02 ceiling: the mesh pipeline is the per-face kernel applied to every face (induction over the face list). *)
 From Coq Require Import ZArith Reals Lra List Bool Lia Arith Sorted Permutation.
 From PW Require Import Num NumR Vec NpList Result.
-From PW.model Require Import M_slicing.
+From PW.model Require Import M_slicing M_slicing_spec.
 From PW.proofs Require Import P_nplist P_slicing_mesh.
 Import ListNotations.
 
 (* ---- masks, flatnonzero and take as filters over the indexed list --------------------------------------------- *)
-Definition indexed_from {A} (i : nat) (l : list A) : list (nat * A) := zip (seq i (length l)) l.
-Definition indexed {A} (l : list A) : list (nat * A) := indexed_from 0 l.
 
 Lemma take_nonzero_from {A} (p : A -> bool) (l : list A) : forall pre,
   take (pre ++ l) (nonzero_from (length pre) (map p l)) = filter p l.
@@ -74,7 +72,6 @@ Section PerFace.
   Context (eps : R) (n o : vec3 R).
   Local Notation fdata := (@fdata R).
 
-  Definition fd_wf (vs : list (vec3 R)) (d : fdata) : Prop := lookup3 vs (fd_f d) = Some (fd_t d).
 
   Lemma fd_wf_nth vs d j : fd_wf vs d -> nth_error vs (fget (fd_f d) j) = Some (tget (fd_t d) j).
   Proof.
@@ -158,8 +155,6 @@ Section Assemble.
   Local Notation fdata := (@fdata R).
 
   (* what one input row contributes: its index paired with each coordinate triangle of the per-face kernel *)
-  Definition per_face (x : nat * fdata) : list (nat * option (tri R)) :=
-    map (fun t' => (fst x, Some t')) (slice_face_signs ROps eps (fd_d (snd x)) (fd_s (snd x)) (fd_m (snd x)) (fd_t (snd x))).
 
   Definition k_part (x : nat * fdata) : list (nat * option (tri R)) :=
     if inside (fd_s (snd x)) (fd_m (snd x)) then [(fst x, Some (fd_t (snd x)))] else [].
@@ -170,7 +165,7 @@ Section Assemble.
     if is_tri (fd_s (snd x)) (fd_m (snd x))
     then map (fun t' => (fst x, Some t')) (cut_tris ROps eps (fd_d (snd x)) (fd_t (snd x)) (col_of (-1) (fd_s (snd x)))) else [].
 
-  Lemma parts_are_per_face x : k_part x ++ q_part x ++ t_part x = per_face x.
+  Lemma parts_are_per_face x : k_part x ++ q_part x ++ t_part x = per_face eps x.
   Proof.
     unfold k_part, q_part, t_part, per_face, slice_face_signs, face_case.
     destruct (inside (fd_s (snd x)) (fd_m (snd x))) eqn:Ei;
@@ -411,7 +406,6 @@ Qed.
 
 Definition row_tris (eps : R) (row : tri R * (R * R * R) * sgn3 * bool) : list (option (tri R)) :=
   map Some (slice_face_signs ROps eps (snd (fst (fst row))) (snd (fst row)) (snd row) (fst (fst (fst row)))).
-Definition fd_row (d : @fdata R) : tri R * (R * R * R) * sgn3 * bool := (fd_t d, fd_d d, fd_s d, fd_m d).
 
 Lemma slice_fds_triangles eps vs (fds : list (@fdata R)) : (forall d, In d fds -> fd_wf vs d) ->
   Permutation (mesh_tris (mo_v (slice_fds ROps eps vs fds)) (mo_f (slice_fds ROps eps vs fds)))
